@@ -606,6 +606,95 @@ fn random_round(run: &Run, r: &mut Rng, stats: &mut Stats) {
     }
 }
 
+/// Long string (4-20 KiB) of hostile fragments.
+fn large_string(r: &mut Rng) -> String {
+    let want = 4096 + r.below(16 * 1024 + 1);
+    let mut s = String::with_capacity(want + 64);
+    while s.len() < want {
+        match r.below(6) {
+            0 => s.push_str(&hostile_string(r)),
+            1 => s.push_str("\r\n--graphql\r\nContent-Type: application/json\r\n\r\n{}\r\n"),
+            _ => {
+                for _ in 0..(16 + r.below(200)) {
+                    s.push((0x20u8 + r.below(0x5f) as u8) as char);
+                }
+            }
+        }
+    }
+    s
+}
+
+/// Bursts: many responses that are all ready before the consumer polls (the input stream yields them without
+/// suspending), and large responses (>= 4 KiB) followed at once by ready small ones; consumer eager or lazy.
+fn burst_round(run: &Run, r: &mut Rng, stats: &mut Stats) {
+    let long = r.chance(2, 3);
+    let mut responses: Vec<(J, bool)> = vec![];
+    let mut large_then_ready = 0u64;
+    let mut longest_ready_run = 0usize;
+    if long {
+        let n = 100 + r.below(301);
+        // now and then the environment pauses (a gated response) inside the burst
+        let gate_every = if r.chance(1, 3) { Some(30 + r.below(200)) } else { None };
+        let pad = r.below(4);
+        for k in 0..n {
+            let j = match r.below(40) {
+                0 => gen_response_json(r, k),
+                1..=9 if pad > 0 => {
+                    let fill: String = (0..r.below(pad * 30 + 1)).map(|_| (b'a' + r.below(26) as u8) as char).collect();
+                    json!({"data": {"seq": k, "v": fill}})
+                }
+                _ => json!({"data": {"seq": k}}),
+            };
+            let gated = k > 0 && gate_every.is_some_and(|g| k % g == 0);
+            responses.push((j, gated));
+        }
+    } else {
+        let n = 2 + r.below(11);
+        let mut prev_large = false;
+        for k in 0..n {
+            let large = if k == 0 { r.chance(3, 4) } else { r.chance(2, 5) };
+            let gated = r.chance(1, 8);
+            let j = if large { json!({"data": {"seq": k, "v": large_string(r)}}) } else if r.bool() { gen_response_json(r, k) } else { json!({"data": {"seq": k}}) };
+            if prev_large && !gated {
+                large_then_ready += 1;
+            }
+            prev_large = large;
+            responses.push((j, gated));
+        }
+    }
+    let mut cur = 0usize;
+    for (k, (_, gated)) in responses.iter().enumerate() {
+        // the first response of a ready run may be gated: once its gate opens, the ungated ones behind it are ready too
+        cur = if *gated && k > 0 { 1 } else { cur + 1 };
+        longest_ready_run = longest_ready_run.max(cur);
+    }
+    let max_ticks = r.below(4);
+    let plan = Plan {
+        responses,
+        end_gated: r.bool(),
+        max_ticks,
+        immediate_ticks: (0..max_ticks).map(|_| r.chance(1, 6)).collect(),
+        consumer_gated: r.bool(),
+    };
+    let n = plan.responses.len();
+    let mut ch = RandomChooser(r.fork(2626));
+    if let Some(o) = run_one(run, &plan, &mut ch, "burst", stats) {
+        run.nontrivial(rng::hash_str(&format!("burst|{long}|{n}|{}|{:?}", o.out.len(), o.opened)));
+        if long {
+            run.count("burst_runs_with_100_to_400_responses", 1);
+            run.count("burst_responses_driven", n as u64);
+            run.seen("burst_longest_ready_run", &format!("{}", longest_ready_run / 50 * 50));
+        } else {
+            run.count("large_response_runs", 1);
+            run.count("large_responses_followed_at_once_by_a_ready_response", large_then_ready);
+        }
+        run.count(if plan.consumer_gated { "burst_runs_with_lazy_consumer" } else { "burst_runs_with_eager_consumer" }, 1);
+        run.seen("burst_output_sizes_kib", &format!("{}", (o.out.len() / 1024).next_power_of_two()));
+        run.sample_upto(16, json!({"burst_plan": {"responses": n, "long_burst": long, "longest_ready_run": longest_ready_run, "large_then_ready": large_then_ready,
+            "consumer_gated": plan.consumer_gated, "end_gated": plan.end_gated, "max_ticks": max_ticks}, "output_bytes": o.out.len(), "chunks": o.chunk_ends.len()}));
+    }
+}
+
 /// Self-test of the reader on hand-made bodies (a monitor that accepts everything proves nothing).
 fn reader_selftest(run: &Run) -> bool {
     let good: [&[u8]; 4] = [
@@ -701,7 +790,8 @@ pub fn main() {
          Dfs over ALL interleavings of n<=4 responses, <=4 timer firings and end-of-input with an eagerly polling consumer (exhaustive at \
          that bound iff the schedule count equals the closed form sum_t C(n+t,t)); larger bounds in the thorough tier; Dfs with a gated \
          consumer for <=2 responses/<=2 firings; random plans beyond (<=12 responses, <=10 firings, ungated bursts, immediate timers, gated \
-         consumer). Response contents: data/errors/extensions with strings containing --graphql, CRLF--graphql--CRLF, part headers, {} , \
+         consumer); burst plans: 100-400 responses that are ready without suspension (optionally a pause every 30-230), and 2-12 responses of \
+         which some are 4-20 KiB strings followed at once by ready small ones, each with an eagerly or lazily (gated) polling consumer. Response contents: data/errors/extensions with strings containing --graphql, CRLF--graphql--CRLF, part headers, {} , \
          U+2028, NUL, quotes. Distinct by (bound or plan, opened-gate sequence)",
     );
     run.assume("the schedule space is the order in which the environment makes responses / end-of-input / timer firings available; with the eager consumer the stream is polled to quiescence between any two of them");
@@ -709,7 +799,8 @@ pub fn main() {
     run.assume("a zero-part body consisting of the close delimiter alone is accepted (DESIGN A.4 grammar allows zero parts)");
     run.assume("serde_json (harness side) defines the JSON equality used to compare a part with the content the harness generated");
     run.set_floors(300, 250);
-    for c in ["response_parts_in_order", "heartbeat_parts", "dfs_schedules", "reader_selftest_cases", "judge_selftest_cases", "random_runs_with_simultaneously_ready_sources"] {
+    for c in ["response_parts_in_order", "heartbeat_parts", "dfs_schedules", "reader_selftest_cases", "judge_selftest_cases", "random_runs_with_simultaneously_ready_sources",
+        "burst_runs_with_100_to_400_responses", "large_responses_followed_at_once_by_a_ready_response", "burst_runs_with_lazy_consumer", "burst_runs_with_eager_consumer"] {
         run.require_counter(c);
     }
     if !reader_selftest(&run) || !judge_selftest(&run) {
@@ -719,6 +810,7 @@ pub fn main() {
     let content_sets = run.scale(3, 10);
     let big = run.is_thorough();
     let random_n = run.scale(10_000, 200_000);
+    let burst_n = run.scale(40, 1500);
     let shards = run.scale(8, 16);
     let exhaustive_ok = Mutex::new(true);
     std::thread::scope(|sc| {
@@ -756,6 +848,10 @@ pub fn main() {
                 }
                 for _ in 0..random_n {
                     random_round(run, &mut r, &mut stats);
+                }
+                let mut rb = Rng::new(rng::mix(&[run.seed, 2626, shard]));
+                for _ in 0..burst_n {
+                    burst_round(run, &mut rb, &mut stats);
                 }
                 stats.flush(run);
             });
